@@ -8,11 +8,13 @@
 package main
 
 import (
+	"bufio"
 	"bytes"
 	"context"
 	"crypto/sha1"
 	"encoding/hex"
 	"fmt"
+	"io"
 	"net/netip"
 	"runtime"
 	"sort"
@@ -44,6 +46,15 @@ type world struct {
 	ti    []byte // authentic info dictionary
 	valid bool   // MetadataComplete accepts it
 	peers []*simPeer
+	lv    live
+	pend  [][2]string // violations found while an op runs, reported once its op line exists
+}
+
+func (w *world) flushPending() {
+	for _, v := range w.pend {
+		w.c.Violate(v[0], v[1], w.c.Case())
+	}
+	w.pend = nil
 }
 
 type snap struct {
@@ -211,12 +222,26 @@ func (w *world) addPeer(size uint32) *simPeer {
 	w.t.VerifAddPeer(p)
 	sp := &simPeer{p: p}
 	w.peers = append(w.peers, sp)
-	peer.VerifHandleMessage(p, protocol.Extended0{MetadataSize: size, Messages: map[string]uint8{"ut_metadata": 3}})
+	// every combination of {size vote or not} x {ut_metadata id non-zero / absent / zero}
+	// (derived from the op, so that a replay builds the same peer)
+	var m map[string]uint8
+	switch (i + int(size%7)) % 3 {
+	case 0:
+		m = map[string]uint8{"ut_metadata": 3}
+	case 1:
+		m = map[string]uint8{"ut_pex": 1}
+	default:
+		m = map[string]uint8{"ut_metadata": 0, "lt_donthave": 7}
+	}
+	peer.VerifHandleMessage(p, protocol.Extended0{MetadataSize: size, Messages: m})
 	return sp
 }
 
-// drainPeers moves what the torrent sent to the simulated peers into their logs
-// (non-blocking) and answers GetPex-style requests.
+// drainPeers plays the simulated peers' event loops: everything the torrent sent to a
+// peer is logged (for the comparison with the model) and then handled by the REAL
+// peer.handleEvent; every message that handler queues for the connection's writer is
+// passed through the REAL protocol.Write, as the writer goroutine would.  A panic in
+// either is a crash of the client caused by what peers sent.
 func (w *world) drainPeers() {
 	for _, sp := range w.peers {
 		for {
@@ -227,14 +252,39 @@ func (w *world) drainPeers() {
 					sp.picks = append(sp.picks, e.Index)
 				case peer.PeerMetadataComplete:
 					sp.mdc = append(sp.mdc, e.Info)
-				case peer.PeerGetPex:
-					close(e.Ch)
 				}
+				if p := vhlib.Recover(func() { peer.VerifHandleEvent(sp.p, e) }); p != "" {
+					w.pend = append(w.pend, [2]string{fmt.Sprintf("panic:peer.handleEvent:%T", e), p})
+				}
+				w.flushWriter(sp)
 				continue
 			default:
 			}
 			break
 		}
+		w.flushWriter(sp)
+	}
+}
+
+// flushWriter: what protocol.Writer does with the peer's queue.
+func (w *world) flushWriter(sp *simPeer) {
+	for {
+		select {
+		case m := <-sp.p.VerifWriter():
+			bw := bufio.NewWriter(io.Discard)
+			var err error
+			p := vhlib.Recover(func() { err = protocol.Write(bw, m, nil) })
+			name := strings.TrimPrefix(fmt.Sprintf("%T", m), "protocol.")
+			w.c.Count("emitted/"+name, "", false)
+			if p != "" {
+				w.pend = append(w.pend, [2]string{"panic:writer:" + name, fmt.Sprintf("protocol.Write(%+v): %s", m, p)})
+			} else if err != nil {
+				w.pend = append(w.pend, [2]string{"writer-error:" + name, err.Error()})
+			}
+			continue
+		default:
+		}
+		return
 	}
 }
 
@@ -369,9 +419,108 @@ func (w *world) checkGot(index, size uint32, data []byte, pre, post snap, panick
 	}
 }
 
+// ---------------------------------------------------------------- oracle (liveness part)
+
+// live restates the property's last clause on the op sequence itself, so that it is
+// evaluated identically while generating and while replaying: "it still completes once an
+// honest block for every index has been delivered after the last corruption".
+// A window of honest deliveries opens at a request, or after a block-level corruption that
+// leaves a buffer of the right size, and is closed by any vote or resize and by a reset
+// (the client has to request again before blocks can fit).
+// A round = an honest delivery for every index inside one window.
+type live struct {
+	round         map[int]bool // nil: no window open
+	rounds        int          // consecutive honest rounds since the last corruption
+	poisoned      bool         // a non-authentic block was stored in a right-sized buffer
+	wrongSizeHeld bool         // a block was stored while the buffer had a wrong size
+	reported      map[string]bool
+}
+
+func (w *world) honestLeads(st snap) bool {
+	best := 0
+	for k, c := range st.votes {
+		if int(k) != len(w.ti) && c > best {
+			best = c
+		}
+	}
+	return st.votes[uint32(len(w.ti))] > best
+}
+
+// liveGotEv: the event handler calls requestMetadata after a stored/duplicate block, which
+// may resize the buffer; a changed length is not a stored block
+func (w *world) liveGotEv(index, size uint32, spec string, pre, post snap) {
+	w.liveGot(index, size, spec, pre, post)
+}
+
+func (w *world) liveVote() {
+	w.lv.rounds, w.lv.round = 0, nil
+}
+
+func (w *world) liveRequest(post snap) {
+	w.lv.round = map[int]bool{}
+	if len(post.bits) == 0 {
+		w.lv.poisoned = false
+	}
+}
+
+func (w *world) liveGot(index, size uint32, spec string, pre, post snap) {
+	n := len(w.ti)
+	stored := !pre.complete && len(post.info) == len(pre.info) && !bytes.Equal(pre.info, post.info)
+	honest := spec == fmt.Sprintf("H%d", index) && int(size) == n && int(index) < nchunks(n)
+	if !honest {
+		if stored && len(pre.info) == n {
+			w.lv.poisoned = true
+		}
+		if stored && len(pre.info) != n {
+			w.lv.wrongSizeHeld = true
+		}
+		// honest peers send blocks on request: the window stays open only while the buffer
+		// still has the right size (after a reset the client has to request again)
+		w.lv.rounds, w.lv.round = 0, nil
+		if len(post.info) == n {
+			w.lv.round = map[int]bool{}
+		}
+		return
+	}
+	if w.lv.round == nil || post.complete || !w.valid {
+		return
+	}
+	w.lv.round[int(index)] = true
+	if len(w.lv.round) < nchunks(n) {
+		return
+	}
+	w.lv.round = nil
+	w.lv.rounds++
+	kind := ""
+	switch lead := w.honestLeads(post); {
+	case !lead && w.lv.rounds >= 2:
+		kind = "liveness:hostile-size-votes:size-pinned"
+	case !lead:
+	case w.lv.poisoned && w.lv.rounds == 1:
+		kind = "liveness:forged-block-in-buffer:single-honest-round"
+	case w.lv.wrongSizeHeld:
+		kind = "liveness:honest-majority-after-wrong-size-block"
+	case w.lv.rounds == 1:
+		kind = "liveness:honest-round-from-empty-buffer"
+	default:
+		kind = "liveness:two-honest-rounds"
+	}
+	if kind != "" {
+		if w.lv.reported == nil {
+			w.lv.reported = map[string]bool{}
+		}
+		if !w.lv.reported[kind] {
+			w.lv.reported[kind] = true
+			w.c.Violate(kind, fmt.Sprintf("valid metadata; %d honest round(s) (an honest block for every index) since the last corruption, honest size leads=%v, not complete: %s",
+				w.lv.rounds, w.honestLeads(post), post.digest()), w.c.Case())
+		}
+	}
+}
+
 // ---------------------------------------------------------------- operations
 
 func (w *world) opVote(size uint32) {
+	defer w.flushPending()
 	var err error
 	p := vhlib.Recover(func() { err = tor.VerifMetadataVote(w.t, size) })
 	op := fmt.Sprintf("vote %d", size)
@@ -382,9 +531,11 @@ func (w *world) opVote(size uint32) {
 	}
 	w.c.Emit(op, errTag(err)+" "+w.snap().digest())
 	w.c.Count("vote/"+errTag(err), op, err == nil)
+	w.liveVote()
 }
 
 func (w *world) opResize(size uint32) {
+	defer w.flushPending()
 	var err error
 	p := vhlib.Recover(func() { err = tor.VerifResizeMetadata(w.t, size) })
 	op := fmt.Sprintf("resize %d", size)
@@ -395,14 +546,16 @@ func (w *world) opResize(size uint32) {
 	}
 	w.c.Emit(op, errTag(err)+" "+w.snap().digest())
 	w.c.Count("resize/"+errTag(err), op, err == nil)
+	w.liveVote()
 }
 
 func (w *world) opReq(all bool) {
+	defer w.flushPending()
 	var err error
 	var pp *peer.Peer
 	name := "reqn"
 	if !all {
-		pp = w.peers[0].p
+		pp = w.peers[len(w.c.Case())%len(w.peers)].p // any peer, ut_metadata or not
 		name = "req"
 	}
 	p := vhlib.Recover(func() { err = tor.VerifRequestMetadata(w.t, pp) })
@@ -416,9 +569,11 @@ func (w *world) opReq(all bool) {
 	}
 	w.c.Emit(op, errTag(err)+" guess-ok=1 picks-ok=1 "+post.digest())
 	w.c.Count(name+"/"+errTag(err), op, err == nil)
+	w.liveRequest(post)
 }
 
 func (w *world) opGot(index, size uint32, spec string) string {
+	defer w.flushPending()
 	data := dataOf(w.ti, spec)
 	pre := w.snap()
 	var done bool
@@ -442,12 +597,16 @@ func (w *world) opGot(index, size uint32, spec string) string {
 	}
 	w.c.Emit(op, tag+" "+post.digest())
 	w.c.Count("got/"+tag, op, tag == "stored" || tag == "done" || tag == "e-mismatch")
+	if p == "" {
+		w.liveGot(index, size, spec, pre, post)
+	}
 	w.checkGot(index, size, data, pre, post, p, tag)
 	return tag
 }
 
 // opVoteEv: an extended handshake announcing metadata_size, end to end.
 func (w *world) opVoteEv(size uint32) {
+	defer w.flushPending()
 	if len(w.peers) >= 7 {
 		w.opVote(size)
 		return
@@ -467,6 +626,10 @@ func (w *world) opVoteEv(size uint32) {
 	}
 	w.c.Emit(op, "ev guess-ok=1 picks-ok=1 "+post.digest())
 	w.c.Count("votev", op, len(post.votes) != len(pre.votes))
+	w.liveVote()
+	if len(post.votes) != len(pre.votes) || post.votes[size] != pre.votes[size] {
+		w.liveRequest(post) // the handler requests right after an accepted vote
+	}
 	if pre.complete && (!post.complete || !bytes.Equal(pre.info, post.info)) {
 		w.c.Violate("changed-after-complete", "vote changed a complete torrent", w.c.Case())
 	}
@@ -474,6 +637,7 @@ func (w *world) opVoteEv(size uint32) {
 
 // opGotEv: a ut_metadata data message, end to end.
 func (w *world) opGotEv(index, size uint32, spec string) {
+	defer w.flushPending()
 	data := dataOf(w.ti, spec)
 	sp := w.peers[int(index)%len(w.peers)]
 	pre := w.snap()
@@ -499,6 +663,9 @@ func (w *world) opGotEv(index, size uint32, spec string) {
 		w.c.Emit(op, "ev guess-ok=1 picks-ok=1 "+post.digest())
 	}
 	w.c.Count("gotev", op, !bytes.Equal(pre.info, post.info))
+	if p == "" {
+		w.liveGotEv(index, size, spec, pre, post)
+	}
 	w.checkGot(index, size, data, pre, post, p, "ev")
 	if p == "" && post.complete && !pre.complete {
 		for _, q := range w.peers {
@@ -673,30 +840,9 @@ func validMetadata(info []byte) bool {
 // random script: the general safety stream
 func genRandom(c *vhlib.Ctx, r *vhlib.Rand) {
 	w := makeWorld(c, r, false, 1)
-	n := len(w.ti)
 	steps := 4 + r.Intn(22)
 	for s := 0; s < steps; s++ {
-		switch k := r.Intn(100); {
-		case k < 12:
-			w.honestVotes(r, 1)
-		case k < 20:
-			sz := w.wrongVote(r)
-			if r.Chance(30) {
-				w.opVoteEv(sz)
-			} else {
-				w.opVote(sz)
-			}
-		case k < 32:
-			w.opReq(r.Chance(40))
-		case k < 36:
-			w.opResize(r.PickU32(uint32(n), uint32(n), wrongResize(r, n)))
-		case k < 66:
-			i := r.Intn(nchunks(n))
-			w.got(r, uint32(i), uint32(n), fmt.Sprintf("H%d", i))
-		default:
-			i, sz, spec := hostileBlock(r, n)
-			w.got(r, i, sz, spec)
-		}
+		w.randomOp(r)
 	}
 	// the property's "usable only if authentic", once more at the end of the script
 	st := w.snap()
@@ -708,31 +854,107 @@ func genRandom(c *vhlib.Ctx, r *vhlib.Rand) {
 	}
 }
 
-// L1: after any noise, two honest rounds (each preceded by a request) complete
-func genTwoRounds(c *vhlib.Ctx, r *vhlib.Rand) {
-	w := makeWorld(c, r, true, 1)
+// randomOp: one operation of the general stream
+func (w *world) randomOp(r *vhlib.Rand) {
 	n := len(w.ti)
-	w.honestVotes(r, 2+r.Intn(2))
-	if r.Chance(50) {
-		w.opVote(w.wrongVote(r))
-	}
-	w.opReq(r.Bool())
-	for s := r.Intn(6); s > 0; s-- {
+	switch k := r.Intn(100); {
+	case k < 12:
+		w.honestVotes(r, 1)
+	case k < 20:
+		sz := w.wrongVote(r)
+		if r.Chance(30) {
+			w.opVoteEv(sz)
+		} else {
+			w.opVote(sz)
+		}
+	case k < 32:
+		w.opReq(r.Chance(40))
+	case k < 36:
+		w.opResize(r.PickU32(uint32(n), uint32(n), wrongResize(r, n)))
+	case k < 66:
+		i := r.Intn(nchunks(n))
+		w.got(r, uint32(i), uint32(n), fmt.Sprintf("H%d", i))
+	default:
 		i, sz, spec := hostileBlock(r, n)
 		w.got(r, i, sz, spec)
 	}
-	if st := w.snap(); len(st.info) != n { // a hostile round ended in a reset
-		w.opReq(r.Bool())
+}
+
+// honestMajority: honest peers vote until the true size strictly leads
+func (w *world) honestMajority(r *vhlib.Rand) {
+	for {
+		st := w.snap()
+		if st.complete {
+			return
+		}
+		best := 0
+		for k, c := range st.votes {
+			if int(k) != len(w.ti) && c > best {
+				best = c
+			}
+		}
+		if st.votes[uint32(len(w.ti))] > best {
+			return
+		}
+		w.honestVotes(r, 1)
 	}
+}
+
+// L1: whatever happened before (any votes, resizes, requests, honest and hostile blocks of
+// any size), once the honest peers are the majority two honest rounds, each preceded by a
+// request, complete
+func genTwoRounds(c *vhlib.Ctx, r *vhlib.Rand) {
+	w := makeWorld(c, r, true, 1)
+	for s := r.Intn(14); s > 0; s-- {
+		w.randomOp(r)
+	}
+	w.honestMajority(r)
+	w.opReq(r.Bool())
 	w.honestRound(r, true)
 	if !w.snap().complete {
 		w.opReq(r.Bool())
 		w.honestRound(r, r.Bool())
 	}
 	c.Count("scenario/two-rounds", "", false)
-	if w.valid && !w.snap().complete {
-		c.Violate("liveness:two-honest-rounds", "valid metadata, honest majority, every index delivered twice, not complete: "+w.snap().digest(), c.Case())
+}
+
+// L4: a hostile peer's size vote leads when the buffer is first allocated and a block is
+// accepted under that wrong size; then the honest peers out-vote it and deliver every block
+func genOutvoted(c *vhlib.Ctx, r *vhlib.Rand) {
+	w := makeWorld(c, r, true, 1)
+	n := len(w.ti)
+	bad := r.PickU32(uint32(n+CS+1+r.Intn(5000)), uint32(n+CS), 2*CS+1, 3*CS, uint32(2*CS+r.Intn(CS)), uint32(n+1+r.Intn(5000)), uint32(1+r.Intn(n)))
+	if int(bad) == n {
+		bad++
 	}
+	if r.Bool() {
+		w.opVoteEv(bad)
+	} else {
+		w.opVote(bad)
+		w.opReq(r.Bool())
+	}
+	// blocks that are valid for the wrong size
+	bch := nchunks(int(bad))
+	for k := 1 + r.Intn(2); k > 0; k-- {
+		i := r.Intn(bch)
+		l := CS
+		if i == bch-1 {
+			l = int(bad) - i*CS
+		}
+		w.got(r, uint32(i), bad, fmt.Sprintf("Z%d:%d", l, r.Intn(1000)))
+		if len(w.snap().bits) == 0 { // the wrong-size round ended (single block): start another
+			w.opReq(r.Bool())
+		}
+	}
+	held := len(w.snap().bits)
+	w.honestMajority(r)
+	w.opReq(r.Bool())
+	w.honestRound(r, r.Bool())
+	if !w.snap().complete {
+		w.opReq(r.Bool())
+		w.honestRound(r, false)
+	}
+	c.Count(fmt.Sprintf("scenario/outvoted/held=%v", held > 0), "", false)
 }
 
 // L0: honest round from an empty buffer completes (any order, duplicates)
@@ -742,9 +964,6 @@ func genCleanRound(c *vhlib.Ctx, r *vhlib.Rand) {
 	w.opReq(r.Bool())
 	w.honestRound(r, r.Bool())
 	c.Count("scenario/clean-round", "", false)
-	if w.valid && !w.snap().complete {
-		c.Violate("liveness:honest-round-from-empty-buffer", "not complete: "+w.snap().digest(), c.Case())
-	}
 	// later messages are ignored
 	i, sz, spec := hostileBlock(r, len(w.ti))
 	w.got(r, i, sz, spec)
@@ -764,17 +983,11 @@ func genPoisoned(c *vhlib.Ctx, r *vhlib.Rand) {
 		tail = CS
 	}
 	w.got(r, uint32(i), uint32(n), fmt.Sprintf("X%d:%d", i, r.Intn(tail)))
-	mark := len(c.Case())
 	w.honestRound(r, false)
 	c.Count("scenario/poisoned-round", "", false)
-	if w.valid && !w.snap().complete {
-		c.Violate("liveness:forged-block-in-buffer:single-honest-round",
-			fmt.Sprintf("an honest block for every index was delivered after the last forged block (ops %d..) and the torrent is not complete: %s", mark, w.snap().digest()), c.Case())
+	if !w.snap().complete { // the live oracle has reported the single round; a second one must do
 		w.opReq(r.Bool())
 		w.honestRound(r, false)
-		if !w.snap().complete {
-			c.Violate("liveness:two-honest-rounds", "second honest round did not complete either", c.Case())
-		}
 	}
 }
 
@@ -793,10 +1006,6 @@ func genPinned(c *vhlib.Ctx, r *vhlib.Rand) {
 	w.opReq(r.Bool())
 	w.honestRound(r, false)
 	c.Count("scenario/pinned-size", "", false)
-	if w.valid && !w.snap().complete {
-		c.Violate("liveness:hostile-size-votes:size-pinned",
-			"honest blocks for every index delivered twice after the last hostile vote, not complete: "+w.snap().digest(), c.Case())
-	}
 }
 
 // ---------------------------------------------------------------- replay
@@ -852,8 +1061,10 @@ func main() {
 			genTwoRounds(c, c.R)
 		case k == 8:
 			genPoisoned(c, c.R)
-		default:
+		case i%20 == 9:
 			genPinned(c, c.R)
+		default:
+			genOutvoted(c, c.R)
 		}
 	}
 }
